@@ -46,5 +46,9 @@ for i in 1 2 3; do run mutants/eq-w4R4-$i.patch C19 quiet; done
 # wave 7: more correct refactorings (atomics-heavy queues; collections and agents)
 for i in 1 2 3; do run mutants/eq-w7R5-$i.patch C04 quiet; run mutants/eq-w7R5-$i.patch C05 quiet; done
 for i in 1 2 3; do run mutants/eq-w7R6-$i.patch C19 quiet; done
+# the two correct variants written by the reviewing sub-agent (former false alarms)
+run mutants/eq-review-fork-unbuffered-join.patch C06 quiet
+run mutants/eq-review-removehead-busy-wait.patch C05 quiet
+run mutants/eq-review-removehead-busy-wait.patch C04 quiet
 echo "seeds: pass=$pass fail=$fail"
 [ $fail = 0 ]
